@@ -430,10 +430,15 @@ class CallMixin:
             invs = self.class_invariants(recv.ty.cls)
         is_init = env.func is not None and env.func.name == "__init__"
         if not self.spec:
+            top = getattr(self, "top_cls", None)
+            own = recv is not None and isinstance(recv.ty, TRef) and top is not None and recv.ty.cls == top
+            if not is_init and not own:
+                # visible-state invariants of a foreign receiver are known BEFORE its preconditions are checked
+                for cl in invs:
+                    self.ctx.assume(self.spec_bool(cl, env))
             for j, cl in enumerate(c.requires):
                 self.ctx.oblige("%s:call@%s:%s.requires.%d" % (caller, site, key, j), "call-requires", self.spec_bool(cl, env), site=site, note=cl)
             if not is_init:
-                top = getattr(self, "top_cls", None)
                 own = recv is not None and isinstance(recv.ty, TRef) and top is not None and recv.ty.cls == top
                 for j, cl in enumerate(invs):
                     if own:
@@ -650,6 +655,25 @@ class CallMixin:
         finally:
             self.spec -= 1
         return V(TArr(TInt, body.ty), z3.Lambda([c], body.t))
+
+    def sp_invariant_of(self, node, env):
+        """invariant_of(obj): the conjunction of the class invariants of obj's (static) class - to state, in an assume_pre,
+        the visible-state fact that an object of another class satisfies its proved class invariant"""
+        v = self.evalv(node.args[0], env)
+        if isinstance(v.ty, TOpt):
+            v = sym.opt_val(v)
+        if not isinstance(v.ty, TRef):
+            raise Unsupported("invariant_of(%s)" % v.ty)
+        loc = dict(env.locals)
+        loc["self"] = v
+        e2 = env.child(loc)
+        e2.cls = self.index.cls(v.ty.cls)
+        self.spec += 1
+        try:
+            ts = [self.truth(self.evalv(self.parse_clause(cl), e2)) for cl in self.class_invariants(v.ty.cls)]
+        finally:
+            self.spec -= 1
+        return sym.mk_bool(z3.And(*ts) if ts else z3.BoolVal(True))
 
     def sp_is_none(self, node, env):
         v = self.evalv(node.args[0], env)
